@@ -357,6 +357,21 @@ func faults(sh Shape) []fault {
 			}}
 		}, false},
 	}
+	// the caller gives up while Commit is running: its context ends at this request, which is then never delivered /
+	// delivered but unanswered (a cancelled call is not retried by the sender)
+	fs = append(fs,
+		fault{"ctx-cancel+drop-request", func(env *Env, c *uni.Call) uni.Action {
+			return uni.Action{Kind: uni.DropReq, Before: env.CancelCommit}
+		}, true},
+		fault{"ctx-cancel+drop-response", func(env *Env, c *uni.Call) uni.Action {
+			// cancelled once the store has executed the request (the interposer does not deliver a request whose
+			// context has already ended)
+			return uni.Action{Kind: uni.DropResp, After: env.CancelCommit}
+		}, true},
+		fault{"ctx-cancel-after-answer", func(env *Env, c *uni.Call) uni.Action {
+			return uni.Action{After: env.CancelCommit}
+		}, false},
+	)
 	if !sh.Async && !sh.OnePC {
 		// a reader with a fresh timestamp meets the victim's (live) locks at this instant: its resolver pushes the
 		// primary's min_commit_ts above its own timestamp and reads the old values; the victim's commit must then land
@@ -481,6 +496,23 @@ func runFaults(r, tr *vrep.Report, sh Shape, primary string, plan []*injected) {
 	for _, in := range plan {
 		if in.fired.Load() && in.f.loses && isCommitPoint(sh, in.pt, primary, asyncEffective) {
 			lost = true
+		}
+	}
+	// whatever the cause (a fault at an earlier request that ended the caller's context, say): a commit-point request
+	// of the victim that ended with a transport error is a request whose outcome the client could not learn
+	for _, c := range env.VictimCalls(rec.StartTS) {
+		if c.Err == "" {
+			continue
+		}
+		switch c.Cmd {
+		case tikvrpc.CmdCommit:
+			if !asyncEffective && ContainsKey(&c, primary) {
+				lost = true
+			}
+		case tikvrpc.CmdPrewrite:
+			if asyncEffective {
+				lost = true
+			}
 		}
 	}
 	var keys []string
